@@ -421,6 +421,246 @@ func checkC13(p *Program, r *Report) {
 	}
 	r.Floor("C13.width", 4)
 
+	// ---- C13.reader: the element decoder assembles its result at full width
+	for _, fn := range scope {
+		if !inScope[fn] || !takesBitReader(fn) {
+			continue
+		}
+		lcx := NewLinCtx(p, fn)
+		for _, ret := range returnsOf(fn) {
+			if len(ret.Results) == 0 {
+				continue
+			}
+			res := ret.Results[0]
+			if _, isInt := intBasic(res.Type()); !isInt {
+				continue
+			}
+			if k, isK := res.(*ssa.Const); isK && k != nil {
+				continue
+			}
+			bad := ""
+			seen := map[ssa.Value]bool{}
+			var walk func(v ssa.Value)
+			walk = func(v ssa.Value) {
+				if seen[v] || bad != "" {
+					return
+				}
+				seen[v] = true
+				switch x := v.(type) {
+				case *ssa.BinOp:
+					if _, isInt := intBasic(x.Type()); !isInt {
+						return
+					}
+					if lcx.bitsOf(x.Type()) < 64 {
+						bad = fmt.Sprintf("%s computed at %d bits (%s)", x.Op, lcx.bitsOf(x.Type()), exprString(x))
+						return
+					}
+					walk(x.X)
+					if x.Op != token.SHL && x.Op != token.SHR {
+						walk(x.Y)
+					}
+				case *ssa.Phi:
+					if lcx.bitsOf(x.Type()) < 64 {
+						bad = fmt.Sprintf("loop-carried value %s is only %d bits wide", exprString(x), lcx.bitsOf(x.Type()))
+						return
+					}
+					for _, e := range x.Edges {
+						walk(e)
+					}
+				case *ssa.Convert:
+					if _, isInt := intBasic(x.X.Type()); isInt {
+						walk2 := x.X
+						switch walk2.(type) {
+						case *ssa.BinOp, *ssa.Phi:
+							if lcx.bitsOf(x.X.Type()) < 64 {
+								bad = fmt.Sprintf("arithmetic result widened only after being computed at %d bits (%s)", lcx.bitsOf(x.X.Type()), exprString(x))
+								return
+							}
+						}
+						walk(x.X)
+					}
+				case *ssa.Extract:
+					// result of the bit reader: full width by its signature
+				}
+			}
+			walk(res)
+			r.Add("C13.reader", FnName(fn), "decoded element is assembled with 64-bit arithmetic", ret.Pos(), bad == "", bad)
+		}
+	}
+	r.Floor("C13.reader", 1)
+
+	// ---- C13.consume: every successfully decoded element is accumulated and used
+	for _, fn := range scope {
+		if !inScope[fn] || reduceFns[fn] || takesBitReader(fn) {
+			continue
+		}
+		for _, b := range fn.Blocks {
+			for _, in := range b.Instrs {
+				c, ok := in.(*ssa.Call)
+				if !ok || c.Call.StaticCallee() == nil || !p.InRepo(c.Call.StaticCallee()) || !takesBitReader(c.Call.StaticCallee()) {
+					continue
+				}
+				// the loop containing the call
+				var hdr *ssa.BasicBlock
+				for h := b; h != nil; h = h.Idom() {
+					if isLoopHeader(h) {
+						back := false
+						for _, pr := range h.Preds {
+							if h.Dominates(pr) && reachableFrom(b, nil)[pr] {
+								back = true
+							}
+						}
+						if back {
+							hdr = h
+							break
+						}
+					}
+				}
+				if hdr == nil {
+					continue
+				}
+				// delta value and the success edge
+				var delta ssa.Value
+				var succ *ssa.BasicBlock
+				for _, ref := range *c.Referrers() {
+					ex, ok := ref.(*ssa.Extract)
+					if !ok {
+						continue
+					}
+					if ex.Index == 0 {
+						delta = ex
+					}
+					if ex.Index == 1 {
+						for _, u := range *ex.Referrers() {
+							bo, ok := u.(*ssa.BinOp)
+							if !ok || !(isNilConst(bo.X) || isNilConst(bo.Y)) {
+								continue
+							}
+							for _, uu := range *bo.Referrers() {
+								if iff, ok := uu.(*ssa.If); ok {
+									if bo.Op == token.EQL {
+										succ = iff.Block().Succs[0]
+									} else if bo.Op == token.NEQ {
+										succ = iff.Block().Succs[1]
+									}
+								}
+							}
+						}
+					}
+				}
+				if delta == nil || succ == nil {
+					r.Undecided("C13.consume", FnName(fn), "decoded elements are accumulated and used", c.Pos(), "cannot find the success edge of the element decoder call")
+					continue
+				}
+				// the accumulator: a header φ with ADD(φ, delta)
+				var acc *ssa.Phi
+				var sum ssa.Value
+				for _, ref := range *delta.Referrers() {
+					if add, ok := ref.(*ssa.BinOp); ok && add.Op == token.ADD {
+						for _, side := range []ssa.Value{add.X, add.Y} {
+							if ph, ok := side.(*ssa.Phi); ok && ph.Block() == hdr {
+								acc, sum = ph, add
+							}
+						}
+					}
+				}
+				if acc == nil {
+					r.Add("C13.consume", FnName(fn), "decoded deltas are summed into a running value", c.Pos(), false, "no accumulator φ += delta found in the decoding loop")
+					continue
+				}
+				// every back-edge operand of the accumulator is the new sum
+				okAcc := true
+				for i, e := range acc.Edges {
+					if !hdr.Dominates(hdr.Preds[i]) {
+						continue
+					}
+					if !flowsFrom(e, sum) || flowsFrom(e, acc) && e != sum && !onlyThrough(e, sum, acc) {
+						okAcc = false
+					}
+				}
+				r.Add("C13.consume", FnName(fn), "every decoded delta is added to the running value before the next element", c.Pos(), okAcc, "each loop back edge carries running value + delta")
+				// consumers: map insertion keyed by the sum, or a comparison with the sum
+				consumer := map[*ssa.BasicBlock]bool{}
+				for _, u := range valueUses(sum) {
+					switch x := u.(type) {
+					case *ssa.MapUpdate:
+						consumer[x.Block()] = true
+					case *ssa.BinOp:
+						switch x.Op {
+						case token.EQL, token.NEQ, token.LSS, token.LEQ, token.GTR, token.GEQ:
+							consumer[x.Block()] = true
+						}
+					}
+				}
+				reach := reachableFrom(succ, consumer)
+				escaped := false
+				for _, pr := range hdr.Preds {
+					if hdr.Dominates(pr) && reach[pr] && !consumer[pr] {
+						escaped = true
+					}
+				}
+				if consumer[succ] {
+					escaped = false
+				}
+				r.Add("C13.consume", FnName(fn), "every decoded element is compared or indexed before the next one is read", c.Pos(), !escaped && len(consumer) > 0,
+					"no path from a successful read back to the loop head avoids the comparison / insertion")
+			}
+		}
+	}
+	r.Floor("C13.consume", 6)
+
+	// ---- C13.pipeline (cont.): the modulus used for reduction is the one the filter keeps
+	if ref != nil {
+		for _, s := range sites {
+			if !s.ok {
+				continue
+			}
+			fn := s.fn
+			// loads of the modulus field feeding this site
+			var loadBlk *ssa.BasicBlock
+			for _, b := range fn.Blocks {
+				for _, in := range b.Instrs {
+					if f, _, ok := fieldLoad(valueOf(in)); ok && f == s.field && loadBlk == nil {
+						loadBlk = b
+					}
+				}
+			}
+			if loadBlk == nil {
+				continue
+			}
+			after := reachableFrom(loadBlk, nil)
+			bad := ""
+			for _, b := range fn.Blocks {
+				for _, in := range b.Instrs {
+					st, ok := in.(*ssa.Store)
+					if !ok {
+						continue
+					}
+					fa, ok := st.Addr.(*ssa.FieldAddr)
+					if !ok || fieldOfAddr(fa) != s.field {
+						continue
+					}
+					if b != loadBlk && after[b] {
+						bad = "field " + s.field.Name() + " is reassigned at " + p.Pos(st.Pos()) + " after values were reduced with its earlier value"
+					}
+					if b == loadBlk {
+						// same block: the store must come before the first load
+						seenLoad := false
+						for _, in2 := range b.Instrs {
+							if f, _, ok := fieldLoad(valueOf(in2)); ok && f == s.field {
+								seenLoad = true
+							}
+							if in2 == in && seenLoad {
+								bad = "field " + s.field.Name() + " is reassigned at " + p.Pos(st.Pos()) + " after it was read for the reduction"
+							}
+						}
+					}
+				}
+			}
+			r.Add("C13.pipeline", FnName(fn), "the modulus used for reduction is the modulus the filter keeps", s.call.Pos(), bad == "", bad)
+		}
+	}
+
 	// ---- C13.dispatch
 	if ma := p.Func("gcs", "(*Filter).MatchAny"); ma != nil {
 		n := 0
@@ -533,4 +773,37 @@ func takesBitReader(fn *ssa.Function) bool {
 		}
 	}
 	return false
+}
+
+func valueOf(in ssa.Instruction) ssa.Value {
+	v, _ := in.(ssa.Value)
+	return v
+}
+
+// onlyThrough: e reaches acc only through sum (used to accept φ-merges of the new sum).
+func onlyThrough(e ssa.Value, sum ssa.Value, acc *ssa.Phi) bool {
+	seen := map[ssa.Value]bool{}
+	var walk func(v ssa.Value) bool
+	walk = func(v ssa.Value) bool {
+		if v == sum {
+			return true
+		}
+		if v == ssa.Value(acc) {
+			return false
+		}
+		if seen[v] {
+			return true
+		}
+		seen[v] = true
+		if ph, ok := v.(*ssa.Phi); ok {
+			for _, ed := range ph.Edges {
+				if !walk(ed) {
+					return false
+				}
+			}
+			return true
+		}
+		return false
+	}
+	return walk(e)
 }
